@@ -20,16 +20,27 @@ func (a simAddr) String() string  { return string(a) }
 
 // half is one direction of a simulated connection.
 type half struct {
-	mu       sync.Mutex
-	pending  []byte // written, not yet delivered (the "wire")
-	inbox    []byte // delivered, readable
-	wclosed  bool   // writer closed: EOF after inbox drains and pending is delivered
-	rclosed  bool   // reader closed
-	reset    bool   // connection reset by the scheduler
-	notify   chan struct{}
-	written  int64 // total bytes ever written
-	consumed int64 // total bytes ever returned by Read
-	deliv    int64 // total bytes ever delivered
+	mu          sync.Mutex
+	pending     []byte // written, not yet delivered (the "wire")
+	inbox       []byte // delivered, readable
+	wclosed     bool   // writer closed: EOF after inbox drains and pending is delivered
+	rclosed     bool   // reader closed
+	reset       bool   // connection reset by the scheduler
+	notify      chan struct{}
+	written     int64   // total bytes ever written
+	consumed    int64   // total bytes ever returned by Read
+	deliv       int64   // total bytes ever delivered
+	writeStarts []int64 // stream offset at which each Write call began
+}
+
+// writeStart returns the stream offset of the k-th Write call (-1 if it has not happened yet).
+func (h *half) writeStart(k int) int64 {
+	h.mu.Lock()
+	defer h.mu.Unlock()
+	if k < 0 || k >= len(h.writeStarts) {
+		return -1
+	}
+	return h.writeStarts[k]
 }
 
 func newHalf() *half { return &half{notify: make(chan struct{}, 1)} }
@@ -72,6 +83,7 @@ func (c *Conn) Write(p []byte) (int, error) {
 	if !dl.IsZero() && !time.Now().Before(dl) {
 		return 0, os.ErrDeadlineExceeded
 	}
+	h.writeStarts = append(h.writeStarts, h.written)
 	h.pending = append(h.pending, p...)
 	h.written += int64(len(p))
 	return len(p), nil
@@ -224,4 +236,12 @@ func (h *half) isClosed() bool {
 	h.mu.Lock()
 	defer h.mu.Unlock()
 	return h.wclosed || h.reset || h.rclosed
+}
+
+// isDead reports whether this direction can carry nothing more: closed by
+// either end or reset by the scheduler.
+func (h *half) isDead() bool {
+	h.mu.Lock()
+	defer h.mu.Unlock()
+	return h.wclosed || h.rclosed || h.reset
 }
